@@ -1866,6 +1866,10 @@ def check_generated_tests(rep, g):
         for f in dflt:
             rep.bodies.add(f['lid'])
             st = test_status(g.paths(f))
+            if want_def == 'depends':
+                rep.ob('R-GENTEST', st == 'depends', g, f'generated test `{f["name"]}` depends on what the user\'s validation function says about the default',
+                       {'folded_outcome': st})
+                continue
             rep.ob('R-GENTEST', st == want_def if st != 'depends' else None, g,
                    f'generated test `{f["name"]}` {want_def} (default = {d["default"]["text"]})', {'folded_outcome': st, 'expected': want_def})
     rep.sample({'decl': decl_key(d), 'generated_tests': sorted(tests)})
